@@ -13,9 +13,14 @@ struct leaf_base {
 };
 inline leaf_base* g_leaf[4];
 inline int g_leaf_started[4], g_leaf_completed[4], g_leaf_stop_seen[4], g_leaf_stop_at_start[4], g_leaf_destroyed[4];
-template <typename R>
+inline bool g_leaf_cancel_inline[4];
+inline int g_leaf_seq, g_leaf_done_seq[4], g_leaf_outcome[4];   // leaf reacts to a stop request by completing with done from inside its stop callback
+template <typename R, bool Void = false>
 struct leaf_op : leaf_base {
-  struct on_stop { leaf_op* op; void operator()() noexcept { op->stop_seen = true; g_leaf_stop_seen[op->idx_] = 1; } };
+  struct on_stop { leaf_op* op; void operator()() noexcept {
+    op->stop_seen = true; g_leaf_stop_seen[op->idx_] = 1;
+    if (g_leaf_cancel_inline[op->idx_] && !op->completed) op->complete_(op, 2, 0);
+  } };
   using token_t = unifex::stop_token_type_t<R&>;
   R r_; int idx_;
   unifex::manual_lifetime<typename token_t::template callback_type<on_stop>> cb_;
@@ -24,10 +29,10 @@ struct leaf_op : leaf_base {
     complete_ = [](leaf_base* b, int outcome, int v) noexcept {
       auto* self = static_cast<leaf_op*>(b);
       VF_ASSERT(self->started && !self->completed, "harness: leaf completed twice or before start");
-      self->completed = true; g_leaf_completed[self->idx_] = 1;
+      self->completed = true; g_leaf_completed[self->idx_] = 1; g_leaf_done_seq[self->idx_] = ++g_leaf_seq; g_leaf_outcome[self->idx_] = outcome;
       self->cb_.destruct();
-      if (outcome == 0) unifex::set_value(std::move(self->r_), v);
-      else if (outcome == 1) unifex::set_error(std::move(self->r_), v);
+      if (outcome == 0) { if constexpr (Void) unifex::set_value(std::move(self->r_)); else unifex::set_value(std::move(self->r_), int(v)); }
+      else if (outcome == 1) unifex::set_error(std::move(self->r_), int(v));
       else unifex::set_done(std::move(self->r_));
     };
   }
@@ -43,14 +48,19 @@ struct leaf_op : leaf_base {
     cb_.construct(unifex::get_stop_token(r_), on_stop{this});
   }
 };
-struct leaf_sender {
+template <bool Void, template <typename...> class V, template <typename...> class T> struct mleaf_values { using type = V<T<int>>; };
+template <template <typename...> class V, template <typename...> class T> struct mleaf_values<true, V, T> { using type = V<T<>>; };
+template <bool Void>
+struct basic_leaf_sender {
   int idx;
-  template <template <typename...> class V, template <typename...> class T> using value_types = V<T<int>>;
+  template <template <typename...> class V, template <typename...> class T> using value_types = typename mleaf_values<Void, V, T>::type;
   template <template <typename...> class V> using error_types = V<int>;
   static constexpr bool sends_done = true;
   static constexpr unifex::blocking_kind blocking = unifex::blocking_kind::never;
-  template <typename R> leaf_op<unifex::remove_cvref_t<R>> connect(R&& r) const& noexcept { return {(R&&)r, idx}; }
+  template <typename R> leaf_op<unifex::remove_cvref_t<R>, Void> connect(R&& r) const& noexcept { return {(R&&)r, idx}; }
 };
+using leaf_sender = basic_leaf_sender<false>;
+using vleaf_sender = basic_leaf_sender<true>;
 inline bool leaf_running(int i) noexcept { return g_leaf_started[i] && !g_leaf_completed[i]; }
 inline void complete_leaf(int i, int outcome, int v) noexcept { g_leaf[i]->complete_(g_leaf[i], outcome, v); }
 }  // namespace vf
